@@ -327,6 +327,7 @@ def _maybe_bare(rng, top, p=0.15):
 WANT = {
     "bare": lambda top: top["k"] == "bare" and any(n["k"] == "root" and n.get("collators") for n in _nodes(top)),
     "concat_collators": lambda top: any(n.get("collate_roots") for n in _nodes(top)),
+    "collators": lambda top: top["k"] != "interleaved" and any(n["k"] == "root" and n.get("collators") for n in _nodes(top)),
     "mix": lambda top: any(n["k"] == "mix" for n in _nodes(top)),
     "edit": lambda top: any(k in __import__("json").dumps(top) for k in ('"edit":', '"late":')),
     "shared_cfg": lambda top: any(n.get("cfg") for n in _nodes(top)),
